@@ -350,12 +350,116 @@ def units(tier):
     us = [{'harness': 'main', 'K': K, 'W': W, 'settings': si, 'lock_outcomes': lo, 'code': 'hip_ra_x.py' if si % 2 else 'GEOPHIRESv3.py'} for (K, W, si, lo) in BOUNDS[tier]]
     us += [{'harness': 'main', 'K': K, 'W': 1, 'settings': 0, 'lock_outcomes': False, 'code': 'GEOPHIRESv3.py', 'cpus': cp, 'may_fail': mf} for (K, cp, mf) in MANY[tier]]
     us.append({'harness': 'main', 'history': True, 'lock_outcomes': False})
+    us += [{'harness': 'main', 'requests': H, 'lock_outcomes': False} for H in ((2,) if tier == 'quick' else (2, 3))]
     return us
+
+
+def run_requests_unit(unit):
+    """the client entry: H MonteCarloRequests built without an output file (the documented default) in one process.  The clock is a
+    symbolic schedule (between any two clock reads it may or may not have advanced), temporary-directory / uuid services return fresh
+    names (their documented contract).  Each request must get its own results file: otherwise a later study truncates or extends the
+    rows of an earlier one."""
+    H = unit['requests']
+    import types
+    from pathlib import Path
+    import geophires_monte_carlo as GMC
+    cfg = {'harness': 'main-client-requests', 'requests without an output file': H, 'clock': 'symbolic: may or may not advance between two reads'}
+    log = harness.UnitLog(cfg)
+    zv = {}
+    d = tempfile.mkdtemp(prefix='symx_c13req_')
+
+    def fn():
+        st = {'n': 0, 'tick': 0, 'reads': 0}
+
+        def fresh(prefix='', suffix='', dir=None):
+            st['n'] += 1
+            pth = os.path.join(dir or d, f'{prefix or "tmp"}fresh{st["n"]}{suffix or ""}')
+            os.makedirs(pth, exist_ok=True)
+            return pth
+
+        class TD:
+            def __init__(self, suffix=None, prefix=None, dir=None, **kw):
+                self.name = fresh(prefix or '', suffix or '', dir)
+
+            def cleanup(self):
+                pass
+
+            def __enter__(self):
+                return self.name
+
+            def __exit__(self, *a):
+                pass
+
+        def now():
+            st['reads'] += 1
+            if st['reads'] > 1 and bool(core.symbool(f'clock_advanced_before_read_{st["reads"]}')):
+                st['tick'] += 1
+            return st['tick']
+        clock = types.SimpleNamespace(strftime=lambda fmt='', *a: f'T{now():06d}', time=lambda: 1.7e9 + now(), time_ns=lambda: int(1.7e18) + now(),
+                                      monotonic=lambda: float(now()), perf_counter=lambda: float(now()), sleep=lambda *a: None,
+                                      localtime=lambda *a: None, gmtime=lambda *a: None)
+        tf = types.SimpleNamespace(TemporaryDirectory=TD, mkdtemp=fresh, gettempdir=lambda: d, gettempprefix=lambda: 'tmp')
+
+        class U:
+            def __init__(self):
+                st['n'] += 1
+                self.hex = f'{st["n"]:032x}'
+                self.int = st['n']
+
+            def __str__(self):
+                return self.hex
+        uu = types.SimpleNamespace(uuid4=U, uuid1=U)
+        binds = [(GMC, 'TemporaryDirectory', TD), (GMC, 'tempfile', tf), (GMC, 'time', clock), (GMC, 'uuid', uu)]
+        with shim.shadow(*[b for b in binds if hasattr(b[0], b[1])]):
+            reqs = [GMC.MonteCarloRequest(GMC.SimulationProgram.GEOPHIRES, Path(d, 'in.txt'), Path(d, f'settings{i}.txt')) for i in range(H)]
+            paths = [str(r.output_file) for r in reqs]
+            for r in reqs:
+                if hasattr(r, '_temp_output_dir'):
+                    r.__dict__.pop('_temp_output_dir')      # (no clean-up through the model services when the request is collected)
+        return paths
+    try:
+        for pr in core.explore(fn, max_paths=4096):
+            log.path(pr)
+            if pr.error is not None:
+                raise pr.error
+            if pr.aborted:
+                continue
+            harness.reachable(log, pr.ctx, 500)
+            paths = pr.value
+            for a in range(H):
+                for b in range(a + 1, H):
+                    harness.discharge(log, pr.ctx, f'requests {a + 1} and {b + 1} (no output file named) write their rows to different results files',
+                                      paths[a] != paths[b], zv, lambda inp: replay_requests(H), sample=(a == 0 and b == 1))
+    finally:
+        shutil.rmtree(d, ignore_errors=True)
+    yield log.result()
+
+
+def replay_requests(H):
+    """the real constructor with the real clock and tempfile: H requests built back to back (same wall-clock second, retried if a second
+    boundary was crossed)."""
+    import time
+    from pathlib import Path
+    import geophires_monte_carlo as GMC
+    d = tempfile.mkdtemp(prefix='symx_c13reqr_')
+    try:
+        for attempt in range(3):
+            t0 = int(time.time())
+            reqs = [GMC.MonteCarloRequest(GMC.SimulationProgram.GEOPHIRES, Path(d, 'in.txt'), Path(d, f'settings{i}.txt')) for i in range(H)]
+            paths = [str(r.output_file) for r in reqs]
+            if int(time.time()) == t0 or len(set(paths)) < H:
+                break
+        return len(set(paths)) < H, {'results files of the requests': paths}
+    finally:
+        shutil.rmtree(d, ignore_errors=True)
 
 
 def run_unit(unit):
     if unit.get('history'):
         yield from run_history_unit(unit)
+        return
+    if unit.get('requests'):
+        yield from run_requests_unit(unit)
         return
     K, W, si, code, lo = unit['K'], unit['W'], unit['settings'], unit['code'], unit['lock_outcomes']
     settings = [list(s) for s in c13.SETTINGS[si]]
